@@ -816,6 +816,38 @@ func (env *SpecEnv) call(e *Expr) *Value {
 		sort.Strings(keys)
 		x.trusted[jsonLaw] = true
 		return scalar(tStr, x.strLit(strings.Join(keys, ",")))
+	case "jsonVerbatimKeys":
+		// jsonVerbatimKeys(T): the JSON object keys of struct type T whose fields hold the member's raw
+		// bytes (spec.RawJSON / json.RawMessage): encoding/json stores such a member byte for byte when it
+		// is present - including "" and null - and writes it back unchanged; omitempty drops it only when
+		// it was absent. Fields of any other type (string, interface{}, numbers) lose or reject some values.
+		t := env.lookupType(exprTypeName(args[0]))
+		if t == nil {
+			specFail("jsonVerbatimKeys: unknown type %s", args[0])
+		}
+		st, ok := under(t).(*types.Struct)
+		if !ok {
+			specFail("jsonVerbatimKeys: %s is not a struct", args[0])
+		}
+		var keys []string
+		for i := 0; i < st.NumFields(); i++ {
+			if st.Field(i).Anonymous() {
+				specFail("jsonVerbatimKeys: embedded fields are not supported")
+			}
+			k, use := jsonKey(st.Field(i), st.Tag(i))
+			if !use {
+				continue
+			}
+			if nt, ok := st.Field(i).Type().(*types.Named); ok && nt.Obj().Pkg() != nil {
+				q := nt.Obj().Pkg().Path() + "." + nt.Obj().Name()
+				if q == "github.com/matrix-org/gomatrixserverlib/spec.RawJSON" || q == "encoding/json.RawMessage" {
+					keys = append(keys, k)
+				}
+			}
+		}
+		sort.Strings(keys)
+		x.trusted[jsonLaw] = true
+		return scalar(tStr, x.strLit(strings.Join(keys, ",")))
 	case "setfield":
 		// setfield(s, "F", v): struct value s with field F replaced by v
 		sv := env.eval(args[0])
@@ -1027,6 +1059,9 @@ func (env *SpecEnv) call(e *Expr) *Value {
 		}
 		ne := *env
 		ne.cur = li.headState
+		// Go variables denote their values at that loop head (its phis), not the values reaching the clause
+		ne.at = li.header
+		ne.li = li
 		return ne.eval(args[1])
 	case "ncalls":
 		// ncalls(F): how many times F has been called so far (static calls)
